@@ -707,6 +707,7 @@ func (x *Exec) concat(a, b Term, env *Env) Term {
 	x.W.AddFact(env.pc, T("(forall (("+q+" Int)) (! "+f1.S+" :pattern ("+x.W.SeqAt(a, qi).S+")))", SBool))
 	f2 := Implies(And(Cmp("<=", IntLit(0), qi), Cmp("<", qi, lb)), Eq(x.W.SeqAt(c, Arith("+", la, qi)), x.W.SeqAt(b, qi)))
 	x.W.AddFact(env.pc, T("(forall (("+q+" Int)) (! "+f2.S+" :pattern ("+x.W.SeqAt(b, qi).S+")))", SBool))
+	x.catSumFacts(c, a, b)
 	return c
 }
 
